@@ -27,7 +27,48 @@ var netParams = map[string]*chaincfg.Params{
 	"simnet":   &chaincfg.SimNetParams,
 }
 
+// customNet: a seventh network, registered with chaincfg.Register like an application would do, whose
+// legacy version bytes (0x30 / 0x32) and CashAddr prefix are not those of any built-in network.  Only
+// C02 uses it ("forall nets"; the other statements quantify over the six built-in networks).
+var customNet = ref.Net{Name: "verifnet", CashPrefix: "verifnet", P2PKHID: 0x30, P2SHID: 0x32, WIFID: 0x64,
+	HDPriv: [4]byte{0x04, 0x20, 0xb9, 0x00}, HDPub: [4]byte{0x04, 0x20, 0xbd, 0x3a}}
+
+var customNetOnce sync.Once
+
+func registerCustomNet() {
+	customNetOnce.Do(func() {
+		p := chaincfg.SimNetParams
+		p.Name, p.Net = "verifnet", 0xfeedc0de
+		p.LegacyPubKeyHashAddrID, p.LegacyScriptHashAddrID = customNet.P2PKHID, customNet.P2SHID
+		p.CashAddressPrefix, p.SlpAddressPrefix = customNet.CashPrefix, ""
+		if err := chaincfg.Register(&p); err != nil {
+			panic("harness: cannot register the custom network: " + err.Error())
+		}
+		netParams["verifnet"] = &p
+	})
+}
+
+// checksumTwins: two distinct payloads gen(i), gen(j) whose Base58Check checksums (first four bytes of
+// the double SHA-256) are equal, by birthday search (about 8e4 candidates).  A decoder that remembers
+// results under a key derived from the already-verified checksum confuses them.
+func checksumTwins(gen func(i uint32) []byte, limit uint32) (a, b []byte, ok bool) {
+	seen := make(map[[4]byte]uint32, 1<<17)
+	for i := uint32(0); i < limit; i++ {
+		p := gen(i)
+		d := ref.DoubleSHA256(p)
+		k := [4]byte{d[0], d[1], d[2], d[3]}
+		if j, dup := seen[k]; dup {
+			return gen(j), p, true
+		}
+		seen[k] = i
+	}
+	return nil, nil, false
+}
+
 func refNet(name string) ref.Net {
+	if name == customNet.Name {
+		return customNet
+	}
 	for _, n := range ref.Nets {
 		if n.Name == name {
 			return n
